@@ -153,6 +153,7 @@ class Session:
         return self.rc.as_dict()
 
     def close(self):
+        self.exit_contexts()
         self.ra = None
         if self.own_root:
             shutil.rmtree(self.root, ignore_errors=True)
@@ -161,19 +162,62 @@ class Session:
         if os.path.exists(self.path):
             shutil.rmtree(self.path)
         ref = st['ref']
+        self.exit_contexts()
+        uctx = st.get('uctx', 'no') != 'no'
+        cmode = st.get('uctx') if uctx else None
+        if not uctx and st.get('treadme', {}).get('inctx'):
+            raise Skip('README left stale by an earlier context: reached by paths only')
+        full = ref
+        if uctx:
+            ref = ref[:st['mmI']]
         try:
             if len(ref) == 0:
                 self.ra = self.darr.create_raggedarray(self.path, atom=self.cfg.tail, dtype=self.cfg.dtype,
-                                                       accessmode=st['mode'], indextype=self.rc.indextype)
+                                                       accessmode=cmode if uctx else st['mode'], indextype=self.rc.indextype)
             else:
                 items = [self.cfg.rows_array(tuple(r for r in it for _ in range(self.rc.block))).astype(self.cfg.dtype)
                          for it in ref]
-                self.ra = self.darr.asraggedarray(self.path, items, dtype=self.cfg.dtype, accessmode=st['mode'],
-                                                  indextype=self.rc.indextype)
+                self.ra = self.darr.asraggedarray(self.path, items, dtype=self.cfg.dtype,
+                                                  accessmode=cmode if uctx else st['mode'], indextype=self.rc.indextype)
+            if uctx:
+                self.do_EnterCtx()
+                rest = [self.cfg.rows_array(tuple(r for r in it for _ in range(self.rc.block))).astype(self.cfg.dtype)
+                        for it in full[len(ref):]]
+                if rest:
+                    self.ra.iterappend(rest)
+                if st['mode'] != cmode:
+                    self.ra.accessmode = st['mode']
         except Exception as e:
             from .arraymodel import ImplFailure
             raise ImplFailure('creating a ragged array of %d subarrays (%s, index %s) failed: %r'
                               % (len(ref), self.cfg.dtype, self.rc.indextype, e)) from None
+
+    # -- ra.open_arrays() contexts / suspended ra.iter_arrays() generators
+    def do_EnterCtx(self):
+        self.nctx = getattr(self, 'nctx', 0) + 1
+        if self.nctx % 3 == 0 and len(self.ra) > 0:
+            g = self.ra.iter_arrays()
+            next(g)
+            self.ctxs.append(('gen', g))
+        else:
+            cm = self.ra.open_arrays()
+            cm.__enter__()
+            self.ctxs.append(('ctx', cm))
+
+    def do_ExitCtx(self):
+        kind, c = self.ctxs.pop()
+        if kind == 'gen':
+            c.close()
+        else:
+            c.__exit__(None, None, None)
+
+    def exit_contexts(self):
+        while getattr(self, 'ctxs', None):
+            try:
+                self.do_ExitCtx()
+            except Exception:
+                pass
+        self.ctxs = []
 
     def step(self, name, args):
         exc = None
@@ -535,6 +579,7 @@ def expected_view(st):
     if st['treadme'].get('k') == 'ok':
         e['treadme'] = {'k': 'ok', 'n': st['treadme']['n'],
                         'listed': tuple(tuple(x) for x in st['treadme']['listed'])}
+        e['treadme_inctx'] = bool(st['treadme'].get('inctx'))
     return e
 
 
@@ -553,6 +598,12 @@ def compare(prop, exp, obs, obs_out, sess=None):
         if exp['mode'] == 'r+' and not out_agrees(exp['out'], obs_out, strict=False):
             mm.append(('out', exp['out'], obs_out))     # read-only refusals are C11's business
         for nm, h in (('live', live), ('fresh', fresh)):
+            if nm == 'live' and exp.get('uctx', 'no') != 'no':
+                # inside a user context the live handle reads through maps opened for an earlier length
+                # (not covered by C04's histories); its cached length must still be the current one
+                if 'len' in h and h['len'] != len(ref):
+                    mm.append(('live len inside a context', len(ref), h['len']))
+                continue
             if 'raises' in h:
                 mm.append((nm + ' open', ref, 'raises ' + h['raises']))
                 continue
@@ -602,6 +653,8 @@ def compare(prop, exp, obs, obs_out, sess=None):
                 mm.append(('index contiguity', 'contiguous, last end = N', ir))
         if prop == 'C10':
             for nm, h in (('live', live), ('fresh', fresh)):
+                if nm == 'live' and exp.get('uctx', 'no') != 'no':
+                    continue
                 if 'raises' in h:
                     mm.append((nm + ' open', ref, 'raises ' + h['raises']))
                 elif 'error' in h:
@@ -617,6 +670,8 @@ def compare(prop, exp, obs, obs_out, sess=None):
             mm.append(('indices/README stamp', exp['ireadme'], obs['ireadme']))
         if 'raises' not in fresh:
             for key, nm in (('treadme', 'README'), ('vreadme', 'values/README'), ('ireadme', 'indices/README')):
+                if key == 'treadme' and exp.get('treadme_inctx'):
+                    continue     # written through maps a user context kept open: the stamp above says what it lists
                 if key + '_regen' in fresh and obs[key + '_bytes'] != fresh[key + '_regen']:
                     mm.append((nm + ' bytes vs regenerated', 'equal', _firstdiff(obs[key + '_bytes'], fresh[key + '_regen'])))
             if 'readme_error' in fresh:
